@@ -369,6 +369,65 @@ theorem quantis_leaves_old_untouched {e0 e1 : Ens} {old0 old1 : List Frame} {scA
       subst h
       exact hpf
 
+/-! ### 'QNE' means a missing energy — 0 is an energy -/
+
+theorem qstatus0_ne_qne (e0 : Ens) (m : Nat) (p : List Frame) : qstatus0 e0 m p ≠ .QNE := by
+  unfold qstatus0; repeat' split
+  all_goals simp
+
+theorem qstatus1_ne_qne (lam : Int) (m : Nat) (p : List Frame) : qstatus1 lam m p ≠ .QNE := by
+  unfold qstatus1; repeat' split
+  all_goals simp
+
+theorem core_status_ne_qne {e0 e1 : Ens} {lam : Int} {m0 m1 : Nat} {sc1L : Bool}
+    {tmp0 tmp1 : List Frame} {scC scD : Script} {reqs : List Req}
+    {out : Bool × Status × List Frame × List Frame × Status × Status × Nat × List Req}
+    (h : quantisCompleteCore e0 e1 lam m0 m1 sc1L tmp0 tmp1 scC scD reqs = .ok out) : out.2.1 ≠ .QNE := by
+  unfold quantisCompleteCore at h
+  dsimp only at h
+  repeat' split at h
+  all_goals cases h
+  all_goals first
+    | exact qstatus0_ne_qne _ _ _
+    | exact qstatus1_ne_qne _ _ _
+    | simp
+
+/-- `quantis_swap_zero` answers 'QNE' only if the second-last frame of the old [0-] path or the first frame of
+    the old [0+] path carries no potential energy (`None`); an energy of 0 is an energy. -/
+theorem quantis_qne_only_if_energy_missing {e0 e1 : Ens} {old0 old1 : List Frame} {scA scB scC scD : Script}
+    {aa : Bool} {beta0 beta1 xi p : Rat} {r : Result} {sp0 sp1 last : Frame} {rest1 pre0 : List Frame}
+    (h : quantisSwapZero e0 e1 old0 old1 scA scB scC scD aa beta0 beta1 xi p = .ok r)
+    (h1 : old1 = sp0 :: rest1) (h0 : old0 = pre0 ++ [sp1, last])
+    (hv0 : sp0.vpot ≠ none) (hv1 : sp1.vpot ≠ none) : r.status ≠ .QNE := by
+  have hrev : old0.reverse = last :: sp1 :: pre0.reverse := by rw [h0]; simp
+  have hn0 : sp0.vpot.isNone = false := by cases hh : sp0.vpot <;> simp_all
+  have hn1 : sp1.vpot.isNone = false := by cases hh : sp1.vpot <;> simp_all
+  unfold quantisSwapZero at h
+  cases hpre : quantisPre e0 old0 old1 scA scB beta0 beta1 with
+  | err e => simp [hpre] at h
+  | early st p0 p1 s0 s1 reqs =>
+    simp only [hpre, Except.ok.injEq] at h
+    subst h
+    unfold quantisPre at hpre
+    rw [h1] at hpre
+    simp only [hrev, hn0, hn1, Bool.or_self, Bool.false_eq_true, if_false] at hpre
+    repeat' split at hpre
+    all_goals cases hpre
+    all_goals simp [qres]
+  | reached t0 t1 reqs ea sc =>
+    simp only [hpre] at h
+    split at h
+    · unfold quantisComplete at h
+      split at h
+      · cases h
+      · rename_i hc
+        simp only [Except.ok.injEq] at h
+        subst h
+        exact core_status_ne_qne hc
+    · simp only [Except.ok.injEq] at h
+      subst h
+      simp [qres]
+
 /-! ### the high-acceptance rule of the zero swap (wire fencing in [0-] or [0+]) -/
 
 theorem cw_ok {p : List Frame} {e : Ens} {w : Nat} (h : cw p e = .ok w) :
@@ -676,5 +735,9 @@ example : ∃ r1 r2,
       rfl, by simp, by decide, by decide, by decide, by decide⟩
   · exact ⟨by decide, by decide, by decide, by decide, trivial⟩
   · exact ⟨by decide, by decide, by decide, by decide, trivial⟩
+
+/-- non-vacuity: energies exactly 0 on both shooting points, and the swap is accepted -/
+example : ∃ r, quantisSwapZero Ex.e0 Ex.e1 Ex.old0 Ex.old1 Ex.scA Ex.scB Ex.bw Ex.fw true 1 1 0 1 = .ok r ∧
+    r.status = .ACC ∧ (Ex.fr (-1) 200).vpot = some 0 ∧ (Ex.fr (-2) 102).vpot = some 0 := ⟨_, rfl, rfl, rfl, rfl⟩
 
 end Infretis.C11
